@@ -20,6 +20,7 @@ VARIABLES tr, i,
           evals, firstEvalT, pendingV,
           progS, progF,
           cancelT, timeoutSeen, retSeen, ret,
+          preCancelled,     \* cancel() had RETURNED while setup was still running: triggering starts on a dead context
           mS, mF, mD, mSetup, mSetupRes, labelsBad,
           stageCur, stageOpen, setupCleanupSeen, rvOK,
           skipped,          \* rate evaluations that were not passed to the pool so far
@@ -27,7 +28,7 @@ VARIABLES tr, i,
           why
 vars == <<tr, i, setupSeen, ids, liveIds, liveH, endedIds, cleaned, succT, failT, sumTicks, lateSum, dropSum,
           stopSeen, limitSeen, evals, firstEvalT, pendingV, progS, progF, cancelT, timeoutSeen, retSeen, ret,
-          mS, mF, mD, mSetup, mSetupRes, labelsBad, stageCur, stageOpen, setupCleanupSeen, rvOK, lmax, skipped, why>>
+          mS, mF, mD, mSetup, mSetupRes, labelsBad, stageCur, stageOpen, setupCleanupSeen, rvOK, lmax, skipped, preCancelled, why>>
 
 Cfg == T[tr].cfg
 Min(a, b) == IF a < b THEN a ELSE b
@@ -51,6 +52,7 @@ Init == /\ tr \in 1..Len(T) /\ i = 0
         /\ ret = [s |-> 0, f |-> 0, d |-> 0, t |-> 0]
         /\ mS = 0 /\ mF = 0 /\ mD = 0 /\ mSetup = 0 /\ mSetupRes = "" /\ labelsBad = FALSE
         /\ stageCur = 0 /\ stageOpen = FALSE /\ setupCleanupSeen = FALSE /\ rvOK = FALSE /\ lmax = 0 /\ skipped = 0
+        /\ preCancelled = FALSE
         /\ why = IF T[tr].err = "" THEN {} ELSE {F("MACHINERY", T[tr].err)}
 
 Unch(vs) == UNCHANGED vs
@@ -127,6 +129,8 @@ Start(e) ==
           <<Cfg.mode = "file" \/ Cfg.light \/ Cardinality(liveH) < Cfg.conc, "C04", "more-than-concurrency-in-flight">>,
           <<Cfg.light \/ e.b \notin liveH, "C04", "handle-shared-by-concurrent-iterations">>,
           <<e.d = 0, "C07", "iteration-started-in-failed-state">>,
+          \* the caller's cancel() had returned before setup finished: nothing may be requested at all
+          <<~preCancelled, "C05", "iteration-started-although-cancelled-before-triggering-began">>,
           <<Cfg.light \/ e.c <= Deadline + SLACK, "C05", "iteration-started-after-triggering-should-have-stopped">>,
           <<Cfg.rate_mode = FALSE \/ Cfg.mode = "file" \/ Cardinality(ids) + 1 + dropSum <= sumTicks + lateSum, "C02", "started-more-than-requested">>,
           <<Cfg.light \/ ~setupCleanupSeen, "C06", "iteration-after-setup-cleanups">> >>)
@@ -320,6 +324,8 @@ Other(e) == why' = why /\
 
 Next == /\ i < Len(T[tr].ev)
         /\ i' = i + 1 /\ UNCHANGED tr
+        \* set by the one event that changes it; every other event leaves it
+        /\ preCancelled' = IF T[tr].ev[i + 1].k = "cancelret" THEN (setupSeen = -1) ELSE preCancelled
         /\ LET e == T[tr].ev[i + 1] IN
            CASE e.k = "setup" -> Setup(e)
              [] e.k = "eval" -> Eval(e)
